@@ -677,3 +677,124 @@ pub fn run_status(_args: &Args, mut out: Out) {
     }
     out.finish();
 }
+
+// ------------------------------------------------------------------------------ builder
+/// `builder-gen`: random constructor + modifier sequences on `Response`; the resulting struct is logged field by field
+/// and judged by `Builder!BuildWhy`.  Also the text and the parse round trip of every named `ContentType`.
+pub fn run_builder(args: &Args, mut out: Out) {
+    let n = args.u64("n", 2000);
+    let mut r = args.rng();
+    let named: Vec<(&str, ContentType)> = vec![
+        ("Css", ContentType::Css),
+        ("Csv", ContentType::Csv),
+        ("EventStream", ContentType::EventStream),
+        ("FormUrlEncoded", ContentType::FormUrlEncoded),
+        ("Gif", ContentType::Gif),
+        ("Html", ContentType::Html),
+        ("JavaScript", ContentType::JavaScript),
+        ("Jpeg", ContentType::Jpeg),
+        ("Json", ContentType::Json),
+        ("Markdown", ContentType::Markdown),
+        ("MultipartForm", ContentType::MultipartForm),
+        ("None", ContentType::None),
+        ("OctetStream", ContentType::OctetStream),
+        ("Pdf", ContentType::Pdf),
+        ("PlainText", ContentType::PlainText),
+        ("Png", ContentType::Png),
+        ("Svg", ContentType::Svg),
+    ];
+    let variant_of = |t: &ContentType| -> String {
+        let d = format!("{t:?}");
+        d.split('(').next().unwrap_or("").to_string()
+    };
+    let mut sid = 1u64;
+    out.ev(sid, "Reset", json!({}));
+    for (name, t) in &named {
+        let text = t.as_str().to_string();
+        let parsed = variant_of(&ContentType::parse(&text));
+        out.ev(sid, "Ct", json!({"variant": name, "text": text, "parsed": parsed}));
+    }
+    let words = ["", "a", "/x", "/a/b?c=d", "GET", "POST", "no-cache", "v 1", "x,y", "Z"];
+    let text_of = |r: &mut StdRng| -> String { (0..r.gen_range(0..4)).map(|_| *words.choose(r).unwrap()).collect::<Vec<_>>().join(" ") };
+    for _ in 0..n {
+        sid += 1;
+        if !out.wants(sid) {
+            continue;
+        }
+        let mut ops: Vec<Value> = vec![];
+        let s0 = text_of(&mut r);
+        let code = *[100u16, 101, 199, 200, 204, 299, 300, 304, 399, 400, 404, 499, 500, 503, 599, 600, 999].choose(&mut r).unwrap();
+        let methods: Vec<&'static str> = (0..r.gen_range(0..4)).map(|_| *["GET", "POST", "PUT", "HEAD", "DELETE"].choose(&mut r).unwrap()).collect();
+        let which = r.gen_range(0..18);
+        let built = catch(|| {
+            let mut resp = match which {
+                0 => { ops.push(json!({"op":"ok_200"})); Response::ok_200() }
+                1 => { ops.push(json!({"op":"no_content_204"})); Response::no_content_204() }
+                2 => { ops.push(json!({"op":"redirect_301","s":s0})); Response::redirect_301(&s0) }
+                3 => { ops.push(json!({"op":"redirect_303","s":s0})); Response::redirect_303(&s0) }
+                4 => { ops.push(json!({"op":"unauthorized_401"})); Response::unauthorized_401() }
+                5 => { ops.push(json!({"op":"forbidden_403"})); Response::forbidden_403() }
+                6 => { ops.push(json!({"op":"not_found_404"})); Response::not_found_404() }
+                7 => { ops.push(json!({"op":"method_not_allowed_405","list":methods})); Response::method_not_allowed_405(&methods) }
+                8 => { ops.push(json!({"op":"length_required_411"})); Response::length_required_411() }
+                9 => { ops.push(json!({"op":"payload_too_large_413"})); Response::payload_too_large_413() }
+                10 => { ops.push(json!({"op":"unprocessable_entity_422","s":s0})); Response::unprocessable_entity_422(s0.clone()) }
+                11 => { ops.push(json!({"op":"too_many_requests_429"})); Response::too_many_requests_429() }
+                12 => { ops.push(json!({"op":"internal_server_error_500"})); Response::internal_server_error_500() }
+                13 => { ops.push(json!({"op":"not_implemented_501"})); Response::not_implemented_501() }
+                14 => { ops.push(json!({"op":"service_unavailable_503"})); Response::service_unavailable_503() }
+                15 => { ops.push(json!({"op":"new","n":code})); Response::new(code) }
+                16 => { ops.push(json!({"op":"text","n":code,"s":s0})); Response::text(code, s0.clone()) }
+                _ => { ops.push(json!({"op":"html","n":code,"s":s0})); Response::html(code, s0.clone()) }
+            };
+            for _ in 0..r.gen_range(0..6) {
+                let s = text_of(&mut r);
+                resp = match r.gen_range(0..6) {
+                    0 => { ops.push(json!({"op":"with_body","s":s})); resp.with_body(s) }
+                    1 => {
+                        let secs = *[0u32, 1, 59, 60, 3600, 86_400, u32::MAX - 1, u32::MAX].choose(&mut r).unwrap();
+                        ops.push(json!({"op":"with_max_age_seconds","s":secs.to_string()}));
+                        resp.with_max_age_seconds(secs)
+                    }
+                    2 => { ops.push(json!({"op":"with_no_store"})); resp.with_no_store() }
+                    3 => {
+                        let name = *["x-a", "X-A", "cache-control", "location", "allow", "set-cookie"].choose(&mut r).unwrap();
+                        ops.push(json!({"op":"with_header","name":name,"s":s}));
+                        resp.with_header(name, s.try_into().unwrap())
+                    }
+                    4 => {
+                        let c = *[100u16, 200, 204, 301, 404, 500, 599, 700].choose(&mut r).unwrap();
+                        ops.push(json!({"op":"with_status","n":c}));
+                        resp.with_status(c)
+                    }
+                    _ => {
+                        if r.gen_bool(0.8) {
+                            let (name, t) = named.choose(&mut r).unwrap().clone();
+                            ops.push(json!({"op":"with_type","s":name,"text":""}));
+                            resp.with_type(t)
+                        } else {
+                            let text = format!("application/x-{}", r.gen_range(0..5));
+                            ops.push(json!({"op":"with_type","s":"String","text":text}));
+                            resp.with_type(ContentType::String(text))
+                        }
+                    }
+                };
+            }
+            resp
+        });
+        out.ev(sid, "Reset", json!({}));
+        let got = match built {
+            Ok(resp) => {
+                let mut body = Vec::new();
+                let readable = resp.body.reader().map(|mut rd| std::io::Read::read_to_end(&mut rd, &mut body).is_ok()).unwrap_or(false);
+                json!({"panic": false, "code": resp.code, "normal": resp.is_normal(), "ctype": resp.content_type.as_str(),
+                       "hdrs": resp.headers.iter().map(|h| json!([h.name.as_str(), h.value.as_str()])).collect::<Vec<_>>(),
+                       "body": if readable { String::from_utf8_lossy(&body).to_string() } else { "<unreadable>".to_string() },
+                       "is1": resp.is_1xx(), "is2": resp.is_2xx(), "is3": resp.is_3xx(), "is4": resp.is_4xx(), "is5": resp.is_5xx()})
+            }
+            Err(()) => json!({"panic": true, "code": 0, "normal": false, "ctype": "", "hdrs": [], "body": "", "is1": false, "is2": false, "is3": false, "is4": false, "is5": false}),
+        };
+        out.ev(sid, "Build", json!({"ops": ops, "got": got}));
+    }
+    out.finish();
+}
